@@ -51,3 +51,12 @@ int verif_fprintf(FILE *stream, const char *fmt, struct varg a, struct varg b, s
 #define verif_fprintf3(f, fmt, a, b, c) verif_fprintf(f, fmt, VARG(a), VARG(b), VARG(c))
 #define fprintf(f, ...) \
   VERIF_PICK4(__VA_ARGS__, verif_fprintf3, verif_fprintf2, verif_fprintf1, verif_fprintf0)(f, __VA_ARGS__)
+
+/* printf(fmt[, a[, b[, c]]]) and sprintf(buf, fmt, ...) as used by util/econftool.c */
+int verif_printf(const char *fmt, struct varg a, struct varg b, struct varg c);
+#define verif_printf0(fmt) verif_printf(fmt, VARG_NONE, VARG_NONE, VARG_NONE)
+#define verif_printf1(fmt, a) verif_printf(fmt, VARG(a), VARG_NONE, VARG_NONE)
+#define verif_printf2(fmt, a, b) verif_printf(fmt, VARG(a), VARG(b), VARG_NONE)
+#define verif_printf3(fmt, a, b, c) verif_printf(fmt, VARG(a), VARG(b), VARG(c))
+#define printf(...) \
+  VERIF_PICK4(__VA_ARGS__, verif_printf3, verif_printf2, verif_printf1, verif_printf0)(__VA_ARGS__)
